@@ -98,10 +98,20 @@ TYPES = [
                    F("inc", R("Incl2"), True), F("e", R("Color")), F("fx", R("Fx4")), F("tl", R("Tlong")),
                    F("dflt", R("Dflt"), True), F("rec", R("Rec"), True)]),
     complexkey("CK", "Inner", "Inner"),
+    # include chain with two siblings (required-field lists built by NewRequiredFields(included...).Add(...) share prefixes)
+    record("IBase", [F("b1", P("int32")), F("b2", P("string"))]),
+    record("IMid", [F("m1", P("int32"))], includes=["IBase"]),
+    record("IX", [F("x1", P("string"))], includes=["IMid"]),
+    record("IY", [F("y1", P("string")), F("y2", P("int32"), True)], includes=["IMid"]),
+    # defaults whose elements are records / nested collections (freshness of default-populated values across instances)
+    record("DElems", [F("ar", A(R("Inner")), default='[{"a":1},{"a":2,"s":"x"}]'),
+                      F("mr", M(R("Inner")), default='{"k":{"a":3}}'),
+                      F("ma", M(A(P("int32"))), default='{"k":[1,2]}'),
+                      F("e", R("Color"))]),
 ]
 
 # top-level types the drivers exercise
-TOP = ["Inner", "Prims", "Opts", "Dflt", "DOuter", "Coll", "U", "UN", "WithU", "Incl", "Incl2", "Rec", "Big", "Color", "Fx4"]
+TOP = ["Inner", "Prims", "Opts", "Dflt", "DOuter", "Coll", "U", "UN", "WithU", "Incl", "Incl2", "Rec", "Big", "Color", "Fx4", "IX", "IY", "DElems"]
 
 
 def manifest(package_root):
